@@ -233,6 +233,7 @@ func randPolicy(r *rand.Rand) cmapw.Policy {
 		Grouped:    r.Intn(2) == 0,
 	}
 	p.SectionOrder = []string{"", "", "reverse", "shuffle"}[r.Intn(4)]
+	p.Comments = r.Intn(3) == 0
 	return p
 }
 
